@@ -154,6 +154,15 @@ Lemma f14_witness :
   = [Some (Ret [OExn FileNotFoundError]); Some (Ret [ODone])].
 Proof. vm_compute. reflexivity. Qed.
 
+(* F14c: a call whose func_code.py vanished rebuilds the function directory while the clearer removes its parent *)
+Definition f14c_sched : list event :=
+  repeat (Run 0%nat) 6 ++ repeat (Run 1%nat) 20 ++ repeat (Run 0%nat) 4 ++ [Run 1%nat] ++ repeat (Run 0%nat) 60 ++ repeat (Run 1%nat) 20.
+Definition f14c_specs : list spec := [(1, 5, None, [AReduce []; ACall 1]); (1, 6, None, [AClear])].
+Lemma f14c_witness :
+  snd (grun f14c_sched (toy_s1, map (fun sp => Some (toy_sess sp)) f14c_specs))
+  = [Some (Ret [ODone; OExn FileNotFoundError]); Some (Ret [ODone])].
+Proof. vm_compute. reflexivity. Qed.
+
 Lemma toy_unpickle_pickle : forall v, Toy.unpickle (Toy.pickle v) = Some v.
 Proof. intros v; reflexivity. Qed.
 
